@@ -940,28 +940,26 @@ class Client(object):
         s.settimeout(None)
         self.sock, self.open = s, True
         def first_bytes(data):
-            # the server may let go of this connection between the TCP handshake and the client's first bytes (a one-shot
-            # server that is done, a server being closed, a listener's backlog): the client then sees a reset - an
-            # observation about the server like the ones above, not trouble of the harness
+            # the server may let go of this connection between the handshake and the client's first bytes (a newcomer turned
+            # away because no thread could be started, a one-shot server that is done, a server being closed): the send then
+            # fails with EPIPE / ECONNRESET.  That is the same event as "the bytes went out and the connection was then
+            # closed" seen in the other order of a race the harness does not control: the client is connected and has been
+            # given end-of-stream - an observation about the server, not trouble of the harness, and the same in both orders
             try:
                 s.sendall(data)
                 return True
             except (ConnectionResetError, ConnectionAbortedError, BrokenPipeError, socket.timeout):
-                self.sock, self.open = None, False
-                try:
-                    s.close()
-                except Exception:  # noqa
-                    pass
+                self.eof = True
                 return False
         if self.sess.auth and cred in ("g", "b", "e"):
             if not first_bytes(b"X" if cred == "b" else b"A"):
-                return "reset"
+                return "ok"
         if cred == "e":
             # the service's on_connect asks this client for its root (request seq 0): the answer is an exception reply naming a
             # BaseException class
             self.nexc = getattr(self, "nexc", 0)
             if not first_bytes(peer_exception_frame(0, self.k)):
-                return "reset"
+                return "ok"
         elif "occ" in self.sess.opts and cred == "g":
             # a well-behaved client answers what the service's on_connect asks (the client library does that in connect())
             conn = self.wrap()
